@@ -38,8 +38,8 @@ specification `Cnl.Spec.Exp2.IsRef E rep r` (`r = ⌊2^x · 2^(−E)⌋`, `x = r
 16- and 32-bit reps: the kernel evaluator needs ≈ 30 ms per input on this model, so 65 536-input tables do not fit the build budget and `2^32` never will;
 both are covered by the correspondence sweep (every input of the listed 16-bit formats; dense for 32-bit) with the *same, proved-sound* oracle run by
 the compiled driver.  `C20_constants_real_full` — γ (egamma) for the formats with more than 14 fractional bits: Mathlib bounds γ only by the two O(1/n) sequences
-`Hₙ − log(n+1)` and `Hₙ − log n`, so 2^−64 precision is out of reach; those 60 entries (egamma, −Exponent ∈ {15, 16, 18, 20, 21, 24, 25, 27, 30,
-31, 32, 35, 40, 45, 50, 55, 60 … 64}) stay compared with the 60-digit numerical reference only (`C20_constants_ref60`).
+`Hₙ − log(n+1)` and `Hₙ − log n`, so 2^−64 precision is out of reach; those 44 of the 1386 entries (egamma, −Exponent ∈ {15, 16, 18, 20, 21, 24, 25, 27, 30,
+31, 32, 35, 40, 45, 50, 55, 60 … 64}: 16-bit reps 3, 32-bit 15, 64-bit 26) stay compared with the 60-digit numerical reference only (`C20_constants_ref60`).
 -/
 open Cnl Cnl.Exp2 Cnl.Spec.Exp2 Cnl.Exp2Proofs
 
@@ -226,7 +226,7 @@ theorem C20_constants_real (name : String) (es : List NumbersReal.Entry) (hmem :
     (hc : name = "egamma" → e.2.2.1 ≤ 14) :
     Numbers.stored name (entryTy e) (entryExp e) = .ok (entryRep e) ∧
       ((entryRep e : ℝ) - 1) * (2 : ℝ) ^ entryExp e < K ∧ K < ((entryRep e : ℝ) + 1) * (2 : ℝ) ^ entryExp e :=
-  ⟨NumbersReal.stored_eq name es hmem e he, NumbersReal.all_within1 name es hmem K hK e he hc⟩
+  ⟨NumbersReal.stored_eq name es hmem e he, NumbersReal.all_within1 name es hmem K hK e he (fun h => hc h)⟩
 
 section
 open NumbersProofs Real
@@ -248,7 +248,7 @@ theorem C20_inv_sqrt3_real : ∀ e ∈ Generated.numbers_inv_sqrt3, W1[1 / √3,
 theorem C20_phi_real : ∀ e ∈ Generated.numbers_phi, W1[(1 + √5) / 2, e] := NumbersReal.phi_within1
 /-- γ: formats with at most 14 fractional bits -/
 theorem C20_egamma_real_partial : ∀ e ∈ Generated.numbers_egamma, e.2.2.1 ≤ 14 → W1[eulerMascheroniConstant, e] :=
-  NumbersReal.egamma_within1
+  fun e he hb => NumbersReal.egamma_within1 e he hb
 
 /-- `log2e` and `log10e` are the logarithms of e to base 2 and 10 -/
 theorem C20_log2e_is_logb : (1 : ℝ) / log 2 = logb 2 (exp 1) ∧ (1 : ℝ) / log 10 = logb 10 (exp 1) := by
@@ -262,6 +262,10 @@ example : Numbers.stored "pi" ⟨32, true⟩ (-28) = .ok 843314856 ∧
   norm_num at h ⊢
   exact h
 
+/-- the check is not vacuous: a representation two units off is rejected -/
+example : NumbersReal.chk NumbersReal.piEncl (1, 32, 28, 843314858) = false ∧
+    NumbersReal.chk NumbersReal.piEncl (1, 32, 28, 843314854) = false := by decide +kernel
+
 /-- `e_v<scaled_integer<uint64_t, power<-62>>>`: all 64 bits -/
 example : (12535862302449814170 : ℝ) * (2 : ℝ) ^ (-62 : ℤ) < exp 1 ∧ exp 1 < (12535862302449814172 : ℝ) * (2 : ℝ) ^ (-62 : ℤ) := by
   have h := C20_e_real (0, 64, 62, 12535862302449814171) (by decide)
@@ -270,7 +274,11 @@ example : (12535862302449814170 : ℝ) * (2 : ℝ) ^ (-62 : ℤ) < exp 1 ∧ exp
   exact h
 
 /-- `ln2_v<scaled_integer<uint64_t, power<-64>>>` -/
-example : (0, 64, 64, 12786308645202655659) ∈ Generated.numbers_ln2 := by decide
+example : (12786308645202655659 : ℝ) * (2 : ℝ) ^ (-64 : ℤ) < log 2 ∧ log 2 < (12786308645202655661 : ℝ) * (2 : ℝ) ^ (-64 : ℤ) := by
+  have h := C20_ln2_real (0, 64, 64, 12786308645202655660) (by decide)
+  simp only [entryExp, entryRep] at h
+  norm_num at h ⊢
+  exact h
 end
 
 end Cnl.C20
